@@ -15,7 +15,12 @@ from harness import core, machine, tlaval
 CLASSES = {
     "monoidal": {"mc": "MC_Monoidal", "trace": "Trace_Monoidal",
                  "adapter": ("harness.adapters.free", "MonoidalAdapter")},
+    "rigid": {"mc": "MC_Rigid", "trace": "Trace_Rigid",
+              "adapter": ("harness.adapters.free", "RigidAdapter")},
 }
+# bounds of the rigid machine (its signature has 13 generators and as many daggers)
+RIGID_TIERS = {"quick": {"MaxBoxes": 2, "MaxWidth": 3, "states": 220, "sim_num": 80, "sim_depth": 8, "sim_MaxBoxes": 4, "sim_MaxWidth": 4},
+               "thorough": {"MaxBoxes": 3, "MaxWidth": 3, "states": 6000, "sim_num": 2000, "sim_depth": 12, "sim_MaxBoxes": 5, "sim_MaxWidth": 4}}
 
 TIERS = {
     "quick":    {"MaxBoxes": 3, "MaxWidth": 2, "states": 320, "sim_num": 150, "sim_depth": 10,
@@ -90,7 +95,7 @@ def spiral_walks(work, max_cups, num, depth, seed):
     return walks, model
 
 
-def filter_ops(files, ops, out):
+def filter_ops(files, ops, out, drop=()):
     """Concatenate history files keeping only the calls relevant to the property
     (calls referenced through p/ref by kept calls are kept too)."""
     n_hist = n_calls = 0
@@ -99,6 +104,10 @@ def filter_ops(files, ops, out):
             with open(path) as f:
                 for line in f:
                     t = json.loads(line)
+                    if drop:
+                        t["calls"] = [c for c in t["calls"] if c["op"] not in drop]
+                        if any(c["p"] or c["ref"] for c in t["calls"]):
+                            t["calls"] = [c for c in t["calls"] if not (c["p"] or c["ref"])] if not ops else t["calls"]
                     if ops is not None:
                         keep = set(k for k, c in enumerate(t["calls"], 1) if c["op"] in ops)
                         changed = True
@@ -150,7 +159,7 @@ def canary(trace_module, judge, trace_file, verdicts, work, ops):
 
 def run(prop, judge, tier, seed, t0, cls="monoidal", invariants=(), drift=False, extra_hook=None,
         families=False, keep_states=False):
-    cfgt = TIERS[tier]
+    cfgt = RIGID_TIERS[tier] if cls == "rigid" else TIERS[tier]
     ops = OPS[prop]
     A = get_adapter(cls)
     mc, trace_module = CLASSES[cls]["mc"], CLASSES[cls]["trace"]
@@ -188,6 +197,7 @@ def run(prop, judge, tier, seed, t0, cls="monoidal", invariants=(), drift=False,
                         "walk_depth": cfgt["spiral_depth"], "calls": stats3["calls"]}
         lap("replay")
         trace_file = os.path.join(work, "trace.ndjson")
+        # (the rigid normal form yanks snakes: its results are judged by C07, not as interchanges)
         n_hist, n_calls = filter_ops(files + files2, ops, trace_file)
         # leg 3: trace validation
         val = core.validate(trace_module, judge, trace_file, work)
